@@ -702,6 +702,14 @@ def rule_every(ctx, F):
         a0 = deep_strip(b.term_of_operand(tt["args"][0]))
         if bb in cyc and any(s[0] == "call" and re.search(r"ValidatedGroup::state$", s[1] or "") for s in walk(a0)):
             folds.append(bb)
+    if not folds:
+        # the same fold written with an iterator adaptor: fold / for_each / try_fold over the groups with a closure that
+        # combines group.state() through map_maybe_secure
+        for _bi, cb, _cops in closures_created_in(F, b):
+            calls = [(tt["fn"] or "") for _, tt in cb.calls()]
+            if any(re.search(r"ValidatedGroup::state$", c) for c in calls) and any(re.search(r"utilities::map_maybe_secure$", c) for c in calls):
+                if any(re.search(r"Iterator::(fold|for_each|try_fold|try_for_each)$", tt["fn"] or "") for _, tt in b.calls()):
+                    folds.append(_bi)
     ctx.ob(R, b, "the state of every RRset in the answer section enters the verdict", bool(folds),
            "validate_msg looks only at the RRsets on the CNAME/DNAME chain and at the final answer: an additional RRset in the "
            "answer section that is unsigned (insecure or indeterminate) leaves the verdict Secure, and the validating client "
